@@ -59,7 +59,11 @@ JOBS = [
                    ("enter_wait", "h_enter_wait", ["dr_enter_wait_tasks__", "dr_task_ensure_section", "dr_end_interval_"]),
                    ("enter_create", "h_enter_create", ["dr_enter_create_task__", "dr_task_ensure_section"]),
                    ("return_from_create", "h_return_from_create", ["dr_return_from_create_task__", "dr_task_last_node"]),
-                   ("start_task", "h_start_task", ["dr_start_task__", "dr_mk_dag_node_task"]))
+                   ("start_task", "h_start_task", ["dr_start_task__", "dr_mk_dag_node_task"]),
+                   ("enter_other", "h_enter_other", ["dr_enter_other__", "dr_task_active_node", "dr_end_interval_"]),
+                   ("return_from_other", "h_return_from_other", ["dr_return_from_other__", "dr_task_last_node"]),
+                   ("enter_create_cilk", "h_enter_create_cilk", ["dr_enter_create_cilk_proc_task__", "dr_enter_create_task__"]),
+                   ("start_cilk_proc", "h_start_cilk_proc", ["dr_start_cilk_proc__", "dr_start_task__"]))
 ] + [
   Job("c18.sections.return_from_wait.bounded", "c18_sections.c", "h_return_from_wait", kind="bounded",
       replace=EXIT + ["dr_summarize_section_or_task/summarize_named_contract"], cbmc=["--unwind", "6", "--unwinding-assertions"],
@@ -81,7 +85,9 @@ META = {
                "summaries dr_calc_edges (gen_stat.c) adds for contracted nodes equal the root summary of the accumulate rules, on one concrete "
                "dumped DAG of 14 nodes in four contraction states. Recording side (proved, nesting depth symbolic): begin_section / ensure_section push the new "
                "section as last subgraph of the active node with that node as parent; enter_wait appends the wait interval to the innermost open section "
-               "and pops exactly one level; end_task / return_from_wait (bounded: <= 1 create in the closed section) summarise exactly the closed node.",
+               "and pops exactly one level; end_task / return_from_wait (bounded: <= 1 create in the closed section) summarise exactly the closed node; enter_other appends to the active node "
+               "(task or innermost section) without opening a section; the Cilk slot wss->parent is set by enter_create_cilk_proc_task and emptied by "
+               "start_cilk_proc, which starts exactly one child (slot full, returns 1) or nothing (slot empty, returns 0).",
  "level_note": "The step from (summary = function of the children's summaries) + (no contraction writes a summary) to 'root totals are independent "
                "of contraction' is an induction on the task tree done on paper. Not decided: which worker ran what, clock behaviour, the text of the "
                ".stat file, the gen_stat.c cross-check work == root t_1, hooks. Trusted: cbmc 6.11 (dfcc), gcc -E.",
